@@ -1,6 +1,7 @@
 package c16
 
 import (
+	"crypto/rsa"
 	"encoding/json"
 	"math/big"
 	"math/rand"
@@ -116,3 +117,47 @@ func TestDumpCorpus(t *testing.T) {
 }
 
 func bigInt(v int64) *big.Int { return big.NewInt(v) }
+
+// TestDumpCorpusFw writes the hand-picked firmware cases of follow-up wp-c16b (key chains of every
+// depth with broken links; entries placed around the RTM volume) into $C16_CORPUS_OUT.
+//
+//	C16_CORPUS_OUT=/verif/corpus/C16 go test -tags verif -run TestDumpCorpusFw ./props/c16/
+func TestDumpCorpusFw(t *testing.T) {
+	out := os.Getenv("C16_CORPUS_OUT")
+	if out == "" {
+		t.Skip("C16_CORPUS_OUT not set")
+	}
+	r := rand.New(rand.NewSource(20260927))
+	ks := []*rsa.PrivateKey{rsaKey(2048, 101), rsaKey(2048, 102), rsaKey(2048, 103), rsaKey(2048, 104), rsaKey(2048, 105)}
+	emit := func(name string, s fwSpec) {
+		img, cov, pad := buildFirmware(r, s, ks[0], ks[1], ks[2], ks[3], ks[4])
+		covS, padS, expect := "", "", ""
+		if s.valid() {
+			covS, padS, expect = core.Hex(cov), core.Hex(pad), "valid"
+		}
+		c := core.Case{Kind: "corpus-firmware-" + s.name(), Op: "firmware", Args: map[string]string{
+			"img": core.Hex(img), "level": itoa(s.level), "covered": covS, "padding": padS, "variant": s.name(),
+			"expect": expect, "broken": s.brk, "mseed": "11"}}
+		b, _ := json.MarshalIndent(c, "", " ")
+		if err := os.WriteFile(filepath.Join(out, name+".json"), b, 0o644); err != nil {
+			t.Fatal(err)
+		}
+	}
+	v := func(level int, ac, oc string) fwSpec {
+		return fwSpec{level: level, ablCert: ac, oemCert: oc, oemUsage: 8}
+	}
+	with := func(s fwSpec, f func(*fwSpec)) fwSpec { f(&s); return s }
+	emit("50-firmware-chain-root-db-abl-oem", v(2, "db", "abl"))
+	emit("51-firmware-chain-broken-abl-sig-oem-signed-by-abl", with(v(1, "db", "abl"), func(s *fwSpec) { s.brk = "abl-sig" }))
+	emit("52-firmware-chain-broken-db-body-everything-below-signed", with(v(2, "db", "abl"), func(s *fwSpec) { s.brk = "db-body" }))
+	emit("53-firmware-oem-certified-by-key-not-in-set", with(v(1, "root", "db"), func(s *fwSpec) { s.brk = "oem-unknown" }))
+	emit("54-firmware-oem-names-db-key-signed-by-stranger", with(v(2, "root", "db"), func(s *fwSpec) { s.brk = "oem-wrongkey" }))
+	emit("55-firmware-abl-id-equals-root-id", with(v(1, "root", "root"), func(s *fwSpec) { s.dup = "abl-root" }))
+	emit("56-firmware-rtm-signature-at-last-byte-of-append-window", with(v(1, "root", "db"), func(s *fwSpec) { s.layout = "window-last" }))
+	emit("57-firmware-rtm-signature-at-end-of-append-window", with(v(2, "root", "db"), func(s *fwSpec) { s.layout = "window-end" }))
+	emit("58-firmware-level2-directory-behind-volume", with(v(2, "db", "db"), func(s *fwSpec) { s.layout = "dirL-behind" }))
+	emit("59-firmware-oem-token-behind-volume", with(v(1, "root", "abl"), func(s *fwSpec) { s.layout = "oem-behind" }))
+	emit("60-firmware-key-database-behind-volume", with(v(2, "root", "root"), func(s *fwSpec) { s.layout = "db-behind" }))
+	emit("61-firmware-large-directory-signature-behind-volume-image-ends", with(v(1, "db", "root"), func(s *fwSpec) { s.layout, s.extra = "tight", 10 }))
+	emit("62-firmware-rtm-directory-reserved-byte-flipped", with(v(2, "root", "db"), func(s *fwSpec) { s.brk = "rtm-dir" }))
+}
